@@ -1,24 +1,65 @@
-"""floor() of a symbolic real: compared lazily, concretised (solver-guided fork) when used as a number."""
+"""floor() of a symbolic real.
+
+The value is kept as a quotient a/b whenever the argument is a division (the usual ``floor((x - x0) /
+bin_size)``); the sign of b is decided once by a fork, after which every comparison with a concrete
+integer is cross-multiplied (``floor(a/b) >= c  <=>  a >= c*b`` for b > 0) and therefore stays linear in
+a and b.  When the floor is used as a number (index arithmetic) it is concretised by solver-guided
+forking on ``k*b <= a < (k+1)*b`` with k taken from the current model."""
+import math
+from fractions import Fraction
+
 import z3
+
 from . import engine
 from .values import SymReal, SymInt, mkbool
 
 
 class SymFloor:
-    __slots__ = ("v",)
+    __slots__ = ("a", "b", "_k")
 
     def __init__(self, v):
-        self.v = v if isinstance(v, SymReal) else SymReal.of(v)
+        v = v if isinstance(v, SymReal) else SymReal.of(v)
+        t = v.t
+        self._k = None
+        if z3.is_app_of(t, z3.Z3_OP_DIV):
+            a, b = t.arg(0), t.arg(1)
+            if z3.is_rational_value(b):
+                self.a, self.b = t, z3.RealVal(1)
+            else:
+                # decide the sign of the divisor once (it is non-zero: the division already forked on that)
+                if engine.cur().branch(b > 0):
+                    self.a, self.b = a, b
+                else:
+                    self.a, self.b = -a, -b
+        else:
+            self.a, self.b = t, z3.RealVal(1)
+
+    # floor >= c  <=>  a >= c*b   (b > 0)
+    def _ge(self, c):
+        return self.a >= c * self.b
+
+    def _lt(self, c):
+        return self.a < c * self.b
 
     def concrete(self):
+        if self._k is not None:
+            return self._k
         r = engine.cur()
-        k = r.fresh_int("fl")
-        kk = z3.ToReal(k)
-        # k <= v < k+1 defines k uniquely
-        r._add(z3.And(kk <= self.v.t, self.v.t < kk + 1))
-        if r.model is not None:
-            r.model = None
-        return r.concretize(k)
+        while True:
+            if r.model is None:
+                res, m = r._check([])
+                if res != "sat":
+                    if res == "unsat":
+                        raise engine.Infeasible()
+                    r.stats.truncated += 1
+                    raise engine.Truncated()
+                r.model = m
+            va = engine.model_value(r.model, self.a)
+            vb = engine.model_value(r.model, self.b)
+            k = math.floor(Fraction(va) / Fraction(vb))
+            if r.branch(z3.And(self._ge(k), self._lt(k + 1))):
+                self._k = k
+                return k
 
     def _c(self, o):
         if isinstance(o, bool):
@@ -31,42 +72,57 @@ class SymFloor:
         c = self._c(o)
         if c is None:
             return self.concrete() < o
-        return mkbool(self.v.t < c)
+        if self._k is not None:
+            return self._k < c
+        return mkbool(self._lt(c))
 
     def __le__(self, o):
         c = self._c(o)
         if c is None:
             return self.concrete() <= o
-        return mkbool(self.v.t < c + 1)
+        if self._k is not None:
+            return self._k <= c
+        return mkbool(self._lt(c + 1))
 
     def __gt__(self, o):
         c = self._c(o)
         if c is None:
             return self.concrete() > o
-        return mkbool(self.v.t >= c + 1)
+        if self._k is not None:
+            return self._k > c
+        return mkbool(self._ge(c + 1))
 
     def __ge__(self, o):
         c = self._c(o)
         if c is None:
             return self.concrete() >= o
-        return mkbool(self.v.t >= c)
+        if self._k is not None:
+            return self._k >= c
+        return mkbool(self._ge(c))
 
     def __eq__(self, o):
         c = self._c(o)
         if c is None:
             return self.concrete() == o
-        return mkbool(z3.And(self.v.t >= c, self.v.t < c + 1))
+        if self._k is not None:
+            return self._k == c
+        return mkbool(z3.And(self._ge(c), self._lt(c + 1)))
 
     def __ne__(self, o):
         c = self._c(o)
         if c is None:
             return self.concrete() != o
-        return mkbool(z3.Or(self.v.t < c, self.v.t >= c + 1))
+        if self._k is not None:
+            return self._k != c
+        return mkbool(z3.Or(self._lt(c), self._ge(c + 1)))
 
     def __hash__(self):
         return hash(self.concrete())
 
     def __index__(self):
+        return self.concrete()
+
+    def __int__(self):
         return self.concrete()
 
     def __add__(self, o):
@@ -89,4 +145,4 @@ class SymFloor:
         return -self.concrete()
 
     def __repr__(self):
-        return "SymFloor(%s)" % self.v.t
+        return "SymFloor(%s / %s)" % (self.a, self.b)
